@@ -597,19 +597,20 @@ func Reversed() bool { return os.Getenv("VERIF_ORDER") == "reverse" }
 // instantiations visited in the opposite order, and merges what it finds: state that the
 // library keeps between calls (a cache filled by the first caller) shows up in one of the
 // two orders.
-func (c *Ctx) ReverseOrderPass(binary string) {
+func (c *Ctx) ReverseOrderPass(binary string) *WorkerResult {
 	if Reversed() {
-		return
+		return nil
 	}
 	res, _, err := RunWorker(binary, c.Prop.ID, "--worker", "reverse", "VERIF_ORDER=reverse", "VERIF_TIER=quick", "VERIF_NO_EVIDENCE=1")
 	if err != nil {
 		c.InternalError("reverse-order pass: %v", err)
-		return
+		return nil
 	}
 	for _, v := range res.Violations {
 		c.Fail(v.Case, v.Failure)
 	}
 	c.Set("reverse_order_pass_evaluations", res.Executions)
+	return res
 }
 
 // SweepWorker is the Worker of the sweep checks: runs the check itself (reverse order) and
@@ -620,6 +621,12 @@ func SweepWorker(c *Ctx, arg string) int {
 	if v, ok := c.cov["evaluations"].(int64); ok {
 		res.Executions = v
 	}
+	if d, ok := c.cov["ctx_digests"].(map[string]string); ok {
+		res.Digests = d
+	}
 	EmitWorkerResult(res)
 	return 0
 }
+
+// CtxEvals returns the evaluations counted through Eval so far.
+func (c *Ctx) CtxEvals() int64 { return c.evals.Load() }
